@@ -62,11 +62,12 @@ class Path:
 
 
 class PathEval:
-    def __init__(self, body, unwind=False, max_paths=4096, max_len=400):
+    def __init__(self, body, unwind=False, max_paths=4096, max_len=400, max_visits=1):
         self.body = body
         self.unwind = unwind
         self.max_paths = max_paths
         self.max_len = max_len
+        self.max_visits = max_visits      # >1 unrolls loops: a block may be visited that many times on one path
         self.truncated = False
 
     # --------------------------------------------------------------- terms
@@ -179,7 +180,8 @@ class PathEval:
             if len(out) >= self.max_paths:
                 self.truncated = True
                 break
-            if bb in seen or len(path.blocks) > self.max_len:
+            visits = path.blocks.count(bb) if self.max_visits > 1 else (1 if bb in seen else 0)
+            if visits >= self.max_visits or len(path.blocks) > self.max_len:
                 path.end = "loop"
                 path.env = env
                 out.append(path)
@@ -232,7 +234,7 @@ class PathEval:
                 args = [self.operand(env, a) for a in t["argv"]]
                 c = t["callee"]
                 cp = c.get("path") or "<ptr>"
-                term = ("call", cp, tuple(args), bb)
+                term = ("call", cp, tuple(args), bb) if visits == 0 else ("call", cp, tuple(args), bb, visits)
                 path.calls.append((bb, c, args, term))
                 if "dest" in t:
                     self.assign(env, t["dest"], term)
